@@ -151,7 +151,17 @@ class ScriptedCache(Cache):
     def _log(self, op, fp, res):
         CACHE_LOG.append([self.cid, op, json.loads(fp), res])
 
+    def _blind(self, op):
+        """a backend that answers without looking at the request: no fingerprint is computed"""
+        if self.script and self.script[0] == "lieBlind":
+            self.script.pop(0)
+            CACHE_LOG.append([self.cid, op, None, "blind"])
+            return True
+        return False
+
     def get(self, evaluatable, options):
+        if self._blind("get"):
+            raise CacheGetFailure(evaluatable, options, self)
         fp = evaluatable.fingerprint(options)
         f = self._next()
         if f in ("miss", "failGet"):
@@ -168,6 +178,8 @@ class ScriptedCache(Cache):
         raise CacheGetFailure(evaluatable, options, self)
 
     def exists(self, evaluatable, options):
+        if self._blind("exists"):
+            return True
         fp = evaluatable.fingerprint(options)
         f = self._next()
         if f == "miss":
